@@ -7,6 +7,7 @@ From JV Require Import Lib.Base Lib.Regex Model.TyVal Model.Scalar Model.Ty Mode
 
 Record ob := {
   o_yaml : bool;                 (* parser_mode = yaml: the observation is compared with the model *)
+  o_oc : bool;                   (* parser_mode = omegaconf: compared with the model run on the omegaconf loader's answers *)
   o_chan : channel;
   o_loaded : option lres;        (* ChDoc / ChCfgEnv: the loader's answer for the key *)
   o_nested : bool;               (* ChArgv given item by item: --key.k=TEXT for every entry of a Dict[str, T] setting *)
@@ -17,6 +18,8 @@ Record case := {
   c_items : list (str * str);    (* the entries of a Dict[str, T] setting as (key, text) — empty when not applicable *)
   c_json_num : N;                (* what Python's json module takes the text for: 1 an integer, 2 a float, 0 neither *)
   c_oracle : list (str * lres);
+  c_oracle_oc : list (str * lres);   (* what loaders["omegaconf"] answered (LYamlErr: one of the mode's loader exceptions,
+                                        LValErr: any other error) — empty when the case has no omegaconf observation *)
   c_obs : list ob }.
 
 (* `pinned` (Spec/C02Guard.v): the repairs of the type machinery that /repo already contains *)
@@ -26,12 +29,22 @@ Definition yl (c : case) : str -> lres := case_yload (c_oracle c).
    drop class 7 from FINDING_CLASSES): the entry's raw text is then retried like a whole-value text *)
 Definition nested_fixed : bool := true.   (* /repo 6b79dc9: a nested item falls back to its original string *)
 
+(* the loader of the observation's parser mode.  Under omegaconf load_value uses the OmegaConf-based loader, which
+   answers like yaml_load for scalars and for most structures but refuses some (`?` -> {None: None}:
+   KeyValidationError); whether such an error is one of the mode's loader exceptions (then every caller falls back to
+   the text) or escapes as a ValueError is observed from the implementation's own get_loader_exceptions, so the model
+   follows the tree with and without /repo 8616e7c.  (Leaf types always load with yaml_load; for the strings where
+   the two loaders differ — PyYAML gives a mapping / sequence, OmegaConf refuses — both make a leaf type reject.) *)
+Definition ylo (c : case) (o : ob) : str -> lres :=
+  if o_oc o then case_yload (c_oracle_oc c) else yl c.
+
 Definition model_ob (c : case) (o : ob) : obs :=
-  if o_nested o then obs_of (via_argv_nested pinned (yl c) nested_fixed (c_ty c) (c_items c)) else
+  let y := ylo c o in
+  if o_nested o then obs_of (via_argv_nested pinned y nested_fixed (c_ty c) (c_items c)) else
   match o_chan o, o_loaded o with
-  | (ChDoc | ChCfgEnv), Some (LVal lv) => obs_of (run_channel (chk pinned (yl c)) (c_clash c) (o_chan o) (c_ty c) (c_text c) lv)
+  | (ChDoc | ChCfgEnv), Some (LVal lv) => obs_of (run_channel (chk pinned y) (c_clash c) (o_chan o) (c_ty c) (c_text c) lv)
   | (ChDoc | ChCfgEnv), _ => Rejected
-  | ch, _ => obs_of (run_channel (chk pinned (yl c)) (c_clash c) ch (c_ty c) (c_text c) (c_val c))
+  | ch, _ => obs_of (run_channel (chk pinned y) (c_clash c) ch (c_ty c) (c_text c) (c_val c))
   end.
 
 (* the JSON number grammar of Model/C05Channels.v (the hypothesis of C05_json_scalars_in_yaml) against Python's json *)
@@ -40,8 +53,8 @@ Definition json_num_class (s : str) : N :=
 
 Definition model_ok (c : case) : bool :=
   N.eqb (json_num_class (c_text c)) (c_json_num c) &&
-  forallb (fun o => negb (o_yaml o) || obs_eqb (model_ob c o) (o_obs o)) (c_obs c)
-  && oracle_consistent (c_oracle c).
+  forallb (fun o => negb (o_yaml o || o_oc o) || obs_eqb (model_ob c o) (o_obs o)) (c_obs c)
+  && oracle_consistent (c_oracle c) && oracle_consistent (c_oracle_oc c).
 
 Definition docs_of (c : case) : list lres :=
   flat_map (fun o => match o_loaded o with Some l => [l] | None => [] end) (c_obs c).
@@ -185,7 +198,7 @@ Definition judge (cs : list ccase) :=
    others (c_clash := false), and class 2 no longer exists. *)
 Definition unclash (c : case) : case :=
   {| c_ty := c_ty c; c_val := c_val c; c_text := c_text c; c_clash := false; c_jsonnet := c_jsonnet c;
-     c_items := c_items c; c_json_num := c_json_num c; c_oracle := c_oracle c; c_obs := c_obs c |}.
+     c_items := c_items c; c_json_num := c_json_num c; c_oracle := c_oracle c; c_oracle_oc := c_oracle_oc c; c_obs := c_obs c |}.
 
 Definition judge1_fixed (c : case) : verdict := judge1 (unclash c).
 
